@@ -420,6 +420,15 @@ func (c *FnCtx) callByContract(frame *Frame, st *State, in ssa.Instruction, call
 		}
 		st.assume(t)
 	}
+	for _, e := range fc.Lemmas {
+		t, err := c.evalBool(post, e.Expr)
+		if err != nil {
+			c.errs = append(c.errs, fmt.Sprintf("%s:%d: lemma %s at call: %v", e.File, e.Line, e.Label, err))
+			continue
+		}
+		st.assume(t)
+		c.note("assumed lemma " + shortKey(key) + ":" + e.Label + " (" + e.Text + "): not checked against the body")
+	}
 	k(st, res)
 }
 
@@ -666,6 +675,9 @@ func (c *FnCtx) builtin(frame *Frame, st *State, in ssa.Instruction, b *ssa.Buil
 					d := c.heapGet(st.heap, arrName("D", mapKeyOf(a.T), "", "Bool"))
 					l := c.heapGet(st.heap, arrName("L", "", "", "Int"))
 					st.assume(fmt.Sprintf("(=> (= (select %s %s) 0) (forall ((k Int)) (not (select (select %s %s) k))))", l, a.S, d, a.S))
+					// and a non-empty map has some key (a witness)
+					w := c.fresh("mapwit", "Int")
+					st.assume(fmt.Sprintf("(=> (> (select %s %s) 0) (select (select %s %s) %s))", l, a.S, d, a.S, w))
 				}
 				k(st, scalar(it, sel(c.heapGet(st.heap, arrName("L", "", "", "Int")), a.S)))
 				return
@@ -784,6 +796,16 @@ func (c *FnCtx) doAppend(st *State, in ssa.Instruction, s, t Val, rt types.Type,
 			row := c.fresh("append.row", "(Array Int "+lf.Sort+")")
 			st.assume(fmt.Sprintf("(forall ((j Int)) (! (= (select %s j) (ite (and (<= 0 j) (< j %s)) (select (select %s %s) %s) (ite (and (<= %s j) (< j %s)) (select (select %s %s) %s) %s))) :pattern ((select %s j))))",
 				row, s.Len(), arr, s.Base(), slot(s.Off(), "j"), s.Len(), newLen, arr, t.Base(), slot(t.Off(), "(- j "+s.Len()+")"), zero, row))
+			// redundant instances of the definition that give the solvers the terms they match on:
+			// every old element that is mentioned has its copy, and the appended elements are named
+			oldElem := sel2(arr, s.Base(), slot(s.Off(), "k"))
+			st.assume(fmt.Sprintf("(forall ((k Int)) (! (=> (and (<= 0 k) (< k %s)) (= (select %s %s) %s)) :pattern (%s)))",
+				s.Len(), row, slot("0", "k"), oldElem, oldElem))
+			if tconst && tn <= 4 {
+				for j := int64(0); j < tn; j++ {
+					st.assume(eq(sel(row, slot("0", plus(s.Len(), fmt.Sprintf("%d", j)))), sel2(arr, t.Base(), slot(t.Off(), fmt.Sprintf("%d", j)))))
+				}
+			}
 			c.heapSet(st, name, sto(arr, r, row))
 		}
 		k(st, sliceVal(rt, r, "0", newLen, nc))
@@ -812,6 +834,10 @@ func (c *FnCtx) doCopy(st *State, dst, src Val, k func(st *State, res Val)) {
 		if src.K == KSlice {
 			st.assume(fmt.Sprintf("(forall ((j Int)) (! (= (select %s j) (ite (and (<= %s j) (< j (+ %s %s))) (select (select %s %s) %s) (select (select %s %s) j))) :pattern ((select %s j))))",
 				row, dst.Off(), dst.Off(), n, arr, src.Base(), slot(src.Off(), "(- j "+dst.Off()+")"), arr, dst.Base(), row))
+			// redundant instance of the definition, triggered by a mention of a source element
+			srcElem := sel2(arr, src.Base(), slot(src.Off(), "k"))
+			st.assume(fmt.Sprintf("(forall ((k Int)) (! (=> (and (<= 0 k) (< k %s)) (= (select %s %s) %s)) :pattern (%s)))",
+				n, row, slot(dst.Off(), "k"), srcElem, srcElem))
 		} else {
 			c.declareFun("str_at", []string{"Int", "Int"}, "Int")
 			st.assume(fmt.Sprintf("(forall ((j Int)) (= (select %s j) (ite (and (<= %s j) (< j (+ %s %s))) (str_at %s (- j %s)) (select (select %s %s) j))))",
